@@ -7,10 +7,8 @@
           sp_pattern <-> Pattern (FragGrammar.v, soundness by induction on the fuel, completeness by induction on the
           derivation with follow-set conditions).
    NOT covered: everything outside the fragment: property escapes, named groups and `\k`, and their early errors (absent
-   from Grammar.v); character classes (Grammar.v has them, with their early errors, and the recogniser decides them --
-   recognises_iff_Pattern holds for every input -- but the simulation of the validator model does not reach them yet, so
-   in_fragment excludes an unescaped `[`); braced quantifiers and decimal escapes whose numbers are 2^63 or more (the
-   implementation saturates there, the grammar compares the exact values); the early error "NcapturingParens >= 2^32 - 1". *)
+   from Grammar.v); braced quantifiers and decimal escapes whose numbers are 2^63 or more (the implementation saturates
+   there, the grammar compares the exact values); the early error "NcapturingParens >= 2^32 - 1". *)
 From Coq Require Import List NArith Bool.
 From V Require Import Common.Str Regex.Reader Regex.Validator Regex.ValidatorReset Regex.ValidatorTotal
   Regex.Grammar Regex.FragParser Regex.FragGrammar Regex.FragSim.
@@ -212,51 +210,50 @@ Proof.
 Qed.
 
 (* the fragment lies inside the set of inputs on which Grammar.v is the whole grammar (where the recogniser is compared with V8) *)
-Lemma scan_gscan u : forall l esc, scan u esc l = true -> gscan u false esc l = true.
+Lemma scan_gscan u : forall l cls esc, scan u cls esc l = true -> gscan u cls esc l = true.
 Proof.
-  induction l as [|c r IH]; intros esc H; [exact H|]. cbn [scan gscan] in *. destruct esc.
-  - apply andb_true_iff in H. destruct H as [Ha Hr]. rewrite (IH false Hr), andb_true_r.
-    unfold allowed_after_backslash in Ha. apply andb_true_iff in Ha. destruct Ha as [_ Ha]. unfold escape_in_grammar.
-    destruct u; [|reflexivity]. cbn [existsb orb] in *. apply negb_true_iff in Ha. apply orb_false_iff in Ha. destruct Ha as [Hk Ha].
-    rewrite Ha, Hk. reflexivity.
-  - destruct (c =? g_backslash); [apply IH; exact H|]. apply andb_true_iff in H. destruct H as [H Hr].
-    apply andb_true_iff in H. destruct H as [Hp Hl]. unfold plain_char in Hp. apply negb_true_iff in Hp. rewrite Hp.
-    rewrite (IH false Hr), andb_true_r. unfold local_ok in Hl. unfold group_in_grammar.
+  induction l as [|c r IH]; intros cls esc H; [exact H|]. cbn [scan gscan] in *. destruct esc.
+  - apply andb_true_iff in H. destruct H as [Ha Hr]. rewrite (IH _ false Hr), andb_true_r.
+    unfold allowed_after_backslash in Ha. apply andb_true_iff in Ha. destruct Ha as [_ Ha]. exact Ha.
+  - destruct (c =? g_backslash); [apply IH; exact H|]. destruct cls; [apply IH; exact H|].
+    destruct (c =? g_lbracket); [apply IH; exact H|]. apply andb_true_iff in H. destruct H as [Hl Hr].
+    rewrite (IH _ false Hr), andb_true_r. unfold local_ok in Hl. unfold group_in_grammar.
     destruct (N.eqb_spec c g_lbrace) as [->|_]; [destruct r as [|? [|? ?]]; reflexivity|exact Hl].
 Qed.
 Lemma in_fragment_in_grammar u l : in_fragment u l = true -> in_grammar u l = true.
 Proof. apply scan_gscan. Qed.
 
-(* classes in the grammar (decided by the recogniser; outside in_fragment).  Patterns in both modes:
+(* classes.  Patterns in both modes:
    [a-z]  [^a]  []  [^]  [a-]  [-a]  [--a]  [\b-a]  [\-]  [\ca-\cb]  [\0-9]  [a-b-c]  [\n-\r]  [(]  ([(])\1  [\]]  [[] *)
 Definition ex_classes : list (list N) :=
   [[91;97;45;122;93]; [91;94;97;93]; [91;93]; [91;94;93]; [91;97;45;93]; [91;45;97;93]; [91;45;45;97;93]; [91;92;98;45;97;93];
    [91;92;45;93]; [91;92;99;97;45;92;99;98;93]; [91;92;48;45;57;93]; [91;97;45;98;45;99;93]; [91;92;110;45;92;114;93];
    [91;40;93]; [40;91;40;93;41;92;49]; [91;92;93;93]; [91;91;93]].
-Example ex_classes_patterns : forall u l, In l ex_classes -> in_grammar u l = true /\ Pattern u l.
+Example ex_classes_patterns : forall st u l, In l ex_classes ->
+  Pattern u (visible_units l u) /\ verdict_of (validate_pattern st l u) = VOk.
 Proof.
-  intros u l Hin. unfold ex_classes in Hin. cbn [In] in Hin.
-  repeat (destruct Hin as [<-|Hin]; [split; [destruct u; reflexivity|apply decide_pattern; destruct u; reflexivity]|]). contradiction.
+  intros st u l Hin. unfold ex_classes in Hin. cbn [In] in Hin.
+  repeat (destruct Hin as [<-|Hin]; [destruct u; decide_both|]). contradiction.
 Qed.
 (* Annex B: Patterns without u only:  [\d-a]  [a-\d]  [\c1]  [\c_-a]  [\c]  [\1]  [\8]  [\x4]  [b-\u{61}]  [a]]  [\B]  [\k]  [\00-\07]  [\_] *)
 Definition ex_classes_annexb : list (list N) :=
   [[91;92;100;45;97;93]; [91;97;45;92;100;93]; [91;92;99;49;93]; [91;92;99;95;45;97;93]; [91;92;99;93]; [91;92;49;93]; [91;92;56;93];
    [91;92;120;52;93]; [91;98;45;92;117;123;54;49;125;93]; [91;97;93;93]; [91;92;66;93]; [91;92;107;93];
    [91;92;48;48;45;92;48;55;93]; [91;92;95;93]].
-Example ex_classes_annexb_modes : forall l, In l ex_classes_annexb ->
-  (in_grammar false l = true /\ Pattern false l) /\ (in_grammar true l = true /\ ~ Pattern true l).
+Example ex_classes_annexb_modes : forall st l, In l ex_classes_annexb ->
+  (Pattern false l /\ verdict_of (validate_pattern st l false) = VOk) /\
+  (~ Pattern true l /\ verdict_of (validate_pattern st l true) <> VOk).
 Proof.
-  intros l Hin. unfold ex_classes_annexb in Hin. cbn [In] in Hin.
-  repeat (destruct Hin as [<-|Hin]; [split; (split; [reflexivity|first [apply decide_pattern|apply decide_not_pattern]; reflexivity])|]).
-  contradiction.
+  intros st l Hin. unfold ex_classes_annexb in Hin. cbn [In] in Hin.
+  repeat (destruct Hin as [<-|Hin]; [split; decide_both|]). contradiction.
 Qed.
 (* not Patterns in either mode:  [z-a]  [a--]  [a-\b]  [\r-\n]  [a-\-]  [a  [\]  ;  [\c-a] and [\u{61}-b] without u, [b-\u{61}] with u *)
-Example ex_classes_invalid : forall u l,
+Example ex_classes_invalid : forall st u l,
   In l [[91;122;45;97;93]; [91;97;45;45;93]; [91;97;45;92;98;93]; [91;92;114;45;92;110;93]; [91;97;45;92;45;93]; [91;97]; [91;92;93]] ->
-  in_grammar u l = true /\ ~ Pattern u l.
+  ~ Pattern u (visible_units l u) /\ verdict_of (validate_pattern st l u) <> VOk.
 Proof.
-  intros u l Hin. cbn [In] in Hin.
-  repeat (destruct Hin as [<-|Hin]; [split; [destruct u; reflexivity|apply decide_not_pattern; destruct u; reflexivity]|]). contradiction.
+  intros st u l Hin. cbn [In] in Hin.
+  repeat (destruct Hin as [<-|Hin]; [destruct u; decide_both|]). contradiction.
 Qed.
 Example ex_classes_invalid_modes :
   ~ Pattern false [91;92;99;45;97;93] /\ ~ Pattern false [91;92;117;123;54;49;125;45;98;93] /\ Pattern true [91;92;117;123;54;49;125;45;98;93] /\
